@@ -495,11 +495,34 @@ func c10(c *core.Ctx, r *core.Report) {
 					continue
 				}
 				lit := an.StructLiteralOf(ret.Results[0])
+				var litF *an.Frame
+								if lit == nil && an.IsNamed(ret.Results[0].Type(), apiPkg, "Trigger") {
+					// built by a helper (a shared trigger constructor): the literal in the helper's frame
+					rv := an.RootFV(fn, ret.Results[0]).Resolve(nil)
+					if al, isAl := rv.V.(*ssa.Alloc); isAl && rv.F != nil && rv.F.Parent != nil {
+						lit, litF = al, rv.F
+					}
+				}
 				if lit == nil || !an.IsNamed(lit.Type(), apiPkg, "Trigger") {
 					continue
 				}
 				found = true
 				v := an.LiteralFields(lit)["Duration"]
+				if v != nil && litF != nil {
+					v = an.FV{V: v, F: litF}.Resolve(nil).V
+				}
+				if v == nil {
+					// … or set on the value the helper handed back, before it is returned
+					for _, ref := range an.Referrers(an.Strip(ret.Results[0])) {
+						if fa, isFA := ref.(*ssa.FieldAddr); isFA && an.FieldOfAddr(fa).Name() == "Duration" {
+							for _, st := range an.StoresTo(fa) {
+								if an.Dominates(st, ret) {
+									v = st.Val
+								}
+							}
+						}
+					}
+				}
 				d := "<unset>"
 				if v != nil {
 					d = an.D().Of(v)
